@@ -154,7 +154,7 @@ Proof. exact isort_by_perm. Qed.
 Theorem C13_oracle_check_sound_complete : forall key inp out,
   sorted_permb key inp out = true <-> sorted_by key out /\ Permutation inp out.
 Proof. exact sorted_permb_ok. Qed.
-Print Assumptions C13_oracle_sorter_sorted. Print Assumptions C13_oracle_check_sound_complete.
+Print Assumptions C13_oracle_sorter_sorted. Print Assumptions C13_oracle_sorter_perm. Print Assumptions C13_oracle_check_sound_complete.
 
 (** non-vacuity: calls on a slice in the middle of a shared array with spare capacity *)
 Definition ex_heap : heap := [[VI 77; VI 3; VI 1; VI 3; VI 2; VI 88]].
